@@ -67,3 +67,10 @@ VARIANTS += [
     M('C16', 'table-group-url-taken-from-the-first-table', E(CW, "            self._table.get('url') if self._table else None", "            self._csvw['tables'][0].get('url') if self._csvw.get('tables') else (self._table.get('url') if self._table else None)"),
       rule='C16-TABLEGROUP', key='table_number=1'),
 ]
+
+SU = 'tdda/serial/utils.py'
+VARIANTS += [
+    M('C16', 'metadata-looked-up-by-the-name-before-the-first-dot', E(SU, "    pathstem = os.path.splitext(base)[0]", "    pathstem = os.path.join(os.path.dirname(base), os.path.basename(base).split('.')[0])"),
+      rule='C16-OWNMETA', key='sales.eu.csv'),
+    M('C16', 'refactor-metadata-stem-by-rpartition', E(SU, "    pathstem = os.path.splitext(base)[0]", "    root, ext = os.path.splitext(base)\n    pathstem = root"), kind='refactor'),
+]
